@@ -17,7 +17,7 @@ open Tranp Tranp.CacheFS
 theorem tree_key (S : Sem) (H : Hyp S) (w0 : World) (hc : w0.cache = []) (hs : w0.srcs = []) (hist : List Op)
     (hok : ∀ op ∈ hist, OpOK op) (force : Bool) (k t : Str) (hkt : (k, t) ∈ (run S (exec S w0 hist) force).trees) :
     ∃ sf, (exec S w0 hist).srcs.get? k = some sf ∧ t = S.parse sf.data :=
-  (run_TS H _ force (exec_TInv H w0 hist hok (TInv.init w0 hc hs))).2.2.2 k t hkt
+  (run_TS H _ force (exec_TInv H w0 hist hok (TInv.init w0 hc hs))).2.2.2.1 k t hkt
 
 /-- warm tree = cold tree -/
 theorem tree_key_warm_cold (S : Sem) (H : Hyp S) (w0 : World) (hc : w0.cache = []) (hs : w0.srcs = []) (hist : List Op)
@@ -57,10 +57,10 @@ theorem evict_keeps_written (S : Sem) (s : Sess) (dir key ident ext fresh : Str)
   simp [World.mkdirs, herr]
 
 /-- cold = warm is closed under deleting any set of cache files: both coherence invariants (from which `tree_key` and
-    `symbols_partial` follow) survive the removal of an arbitrary list of files — so the over-matching glob
+    `symbols` follow) survive the removal of an arbitrary list of files — so the over-matching glob
     (`a-*.json` also matches `a-symbols-*.json`) is benign. -/
-theorem evict_safe (S : Sem) (loc : Str → Str → Str) (w : World) (h : WS S loc w) (victims : List Str) :
-    WS S loc { w with cache := victims.foldl Dir.erase w.cache } :=
+theorem evict_safe (S : Sem) (w : World) (h : WS S w) (victims : List Str) :
+    WS S { w with cache := victims.foldl Dir.erase w.cache } :=
   ⟨h.1.eraseAll victims, h.2.eraseAll victims⟩
 
 /-- the over-match is real: saving the tree of `a` evicts `a`'s symbol file as well -/
@@ -71,8 +71,8 @@ example : findOldest [(['a', '-', 's', 'y', 'm', 'b', 'o', 'l', 's', '-', 'x', '
   decide +kernel
 
 /-- non-vacuity: the coherent, non-empty cache a real history leaves behind -/
-example : WS dirSem dirLoc (exec dirSem cxWorld cxHist) ∧ (exec dirSem cxWorld cxHist).cache.length = 7 :=
-  ⟨exec_WS dirSem_hyp dirSem_direct cxWorld cxHist cxHist_ok dirHist_acyclic (WS.init _ rfl rfl), by decide +kernel⟩
+example : WS cxSem (exec cxSem cxWorld cxHist) ∧ (exec cxSem cxWorld cxHist).cache.length = 7 :=
+  ⟨exec_WS cxSem_hyp cxWorld cxHist cxHist_ok cxHist_acyclic (WS.init _ rfl rfl), by decide +kernel⟩
 
 /-! ### C05.truncate — interrupted writes -/
 
@@ -92,96 +92,64 @@ example :
   intro k hk
   exact truncate _ rfl k (by simpa [show (JsonText.print (.obj [(['a'], .arr [.num ['1'], .str ['}']])])).length = 13 from by decide +kernel] using hk)
 
-/-! ### C05.symbols — the symbol cache -/
+/-! ### C05.symbols — the symbol cache (closure-keyed identity, a383b4a) -/
 
-/-- The property for the symbol cache, all graphs and histories: the symbol table a run uses for a module — restored from
-    whatever earlier runs left behind or analysed now — equals the one the same run computes from an empty cache directory. -/
-def symbols_statement : Prop :=
-  ∀ (S : Sem), Hyp S → ∀ (w0 : World), w0.cache = [] → w0.srcs = [] → ∀ (hist : List Op), (∀ op ∈ hist, OpOK op) →
-    Acyclic S w0 hist → ∀ (force : Bool),
-      (run S (exec S w0 hist) force).cyc = false → (run S (exec S w0 hist).clearCache force).cyc = false →
-      ∀ k t t', (k, t) ∈ (run S (exec S w0 hist) force).db → (k, t') ∈ (run S (exec S w0 hist).clearCache force).db → t = t'
-
-/-- FALSE on the code as it is (F5): chain a → b → c, build, edit `c`, build again. `a`'s identity digests the files of `a`
-    and `b` only, so `a`'s symbols are restored although what `a` sees through `b` has changed. -/
-theorem symbols_counterexample : ¬ symbols_statement := by
-  intro h
-  have hac : Acyclic cxSem cxWorld cxHist := by
-    refine ⟨trivial, trivial, trivial, ?_, trivial, trivial⟩
-    show (run cxSem _ true).cyc = false
-    decide +kernel
-  have := h cxSem cxSem_hyp cxWorld rfl rfl cxHist cxHist_ok hac true (by decide +kernel) (by decide +kernel)
-    ['a'] [c4, c3, c1, '}'] [c4, c3, c2, '}'] (by decide +kernel) (by decide +kernel)
-  exact absurd this (by decide)
-
-/-- what makes the counter-example tick: the edit of `c` changes the identities of `c` and `b` but not that of `a`,
-    and the stale table reaches the transpiled text of `a` -/
-example :
-    (identity cxSem (exec cxSem cxWorld cxHist) ['a'] [c4, '}'] = identity cxSem (exec cxSem cxWorld (cxHist.take 4)) ['a'] [c4, '}'] ∧
-     identity cxSem (exec cxSem cxWorld cxHist) ['b'] [c3, '}'] ≠ identity cxSem (exec cxSem cxWorld (cxHist.take 4)) ['b'] [c3, '}'] ∧
-     (run cxSem (exec cxSem cxWorld cxHist) true).out ≠ (run cxSem (exec cxSem cxWorld cxHist).clearCache true).out) := by
-  decide +kernel
-
-/-- The statement holds when inferred symbols depend on direct imports only (`DirectOnly`: what a dependant sees of a
-    module is a function of that module's own tree): every table of a run is the cache-free `pureTable`. -/
-theorem symbols_partial (S : Sem) (H : Hyp S) (loc : Str → Str → Str) (hD : DirectOnly S loc) (w0 : World) (hc : w0.cache = [])
-    (hs : w0.srcs = []) (hist : List Op) (hok : ∀ op ∈ hist, OpOK op) (hac : Acyclic S w0 hist) (force : Bool)
+/-- For every semantics with injective digests, every import graph and every history of edits, runs, deletions, truncations
+    and enable/disable switches from an empty project and cache in which no analysis runs inside an import cycle: the symbol
+    table a run uses for a module — restored from whatever earlier runs left behind or analysed now — equals the one the
+    same run computes from an empty cache directory. (`Module.identity` digests the identities of the direct imports, hence
+    the whole import closure: `id_covers`.) -/
+theorem symbols (S : Sem) (H : Hyp S) (w0 : World) (hc : w0.cache = []) (hs : w0.srcs = []) (hist : List Op)
+    (hok : ∀ op ∈ hist, OpOK op) (hac : Acyclic S w0 hist) (force : Bool)
     (h1 : (run S (exec S w0 hist) force).cyc = false) (h2 : (run S (exec S w0 hist).clearCache force).cyc = false)
     (k t t' : Str) (hw : (k, t) ∈ (run S (exec S w0 hist) force).db) (hcold : (k, t') ∈ (run S (exec S w0 hist).clearCache force).db) :
     t = t' := by
-  have hW := exec_WS H hD w0 hist hok hac (WS.init w0 hc hs)
-  have hC : WS S loc (exec S w0 hist).clearCache := step_WS H hD _ .clear trivial trivial hW
-  have e1 := (((run_SS H hD _ force hW).2 h1).2 k t hw).2
-  have e2 := (((run_SS H hD _ force hC).2 h2).2 k t' hcold).2
-  rw [e1, e2]; rfl
+  have hW := exec_WS H w0 hist hok hac (WS.init w0 hc hs)
+  have hC : WS S (exec S w0 hist).clearCache := step_WS H _ .clear trivial trivial hW
+  have e1 := (((run_SS H _ force hW).2 h1).2.2 k t hw).1
+  have e2 := (((run_SS H _ force hC).2 h2).2.2 k t' hcold).1
+  exact tab_det e1 t' e2
 
-/-- non-vacuity: the failing history of the counter-example, on a semantics where dependants see only what the imported
-    module declares itself -/
-example : Hyp dirSem ∧ DirectOnly dirSem dirLoc ∧ Acyclic dirSem cxWorld cxHist ∧
-    ((run dirSem (exec dirSem cxWorld cxHist) true).cyc = false ∧ (run dirSem (exec dirSem cxWorld cxHist).clearCache true).cyc = false ∧
-     (run dirSem (exec dirSem cxWorld cxHist) true).db.length = 3 ∧
-     (run dirSem (exec dirSem cxWorld cxHist) true).log.contains ('r', symPath ['a'] (encList [[c3], [c4]]))) := by
-  refine ⟨dirSem_hyp, dirSem_direct, dirHist_acyclic, ?_⟩
+/-- non-vacuity and regression (the history that refuted the law before a383b4a: chain a → b → c, build, edit `c`, build):
+    the hypotheses hold, `b`'s and `c`'s tables are rebuilt, and `a` — re-analysed because its identity now changes with `c` —
+    sees the new `c` through `b`, warm exactly as cold -/
+example : Hyp cxSem ∧ Acyclic cxSem cxWorld cxHist ∧
+    ((run cxSem (exec cxSem cxWorld cxHist) true).cyc = false ∧ (run cxSem (exec cxSem cxWorld cxHist).clearCache true).cyc = false ∧
+     List.lookup ['a'] (run cxSem (exec cxSem cxWorld cxHist) true).db = some [c4, c3, c2, '}'] ∧
+     (run cxSem (exec cxSem cxWorld cxHist) true).out = (run cxSem (exec cxSem cxWorld cxHist).clearCache true).out) := by
+  refine ⟨cxSem_hyp, cxHist_acyclic, ?_⟩
   decide +kernel
 
-/-- …and for the closure-keyed variant of the identity (a Merkle digest: the identities of the direct imports instead of
-    their file hashes — the shape of a possible repair): equal identities imply equal cache-free symbol tables, for every
-    semantics, every import graph and every depth. -/
+/-- The reason, for every semantics, graph and depth: equal closure-keyed identities imply equal cache-free symbol tables
+    (functional form of `id_covers`). -/
 theorem symbols_partial_closure (S : Sem) (H : Hyp S) (src src' : Str → Str) (f : Nat) (k : Str)
     (h : mid S src f k = mid S src' f k) : symPure S src f k = symPure S src' f k :=
   mid_covers H src src' f k h
 
-/-- non-vacuity: on the counter-example's graph the cache-free symbols of `a` differ before and after the edit of `c`,
-    hence (by the theorem) so does `a`'s closure-keyed identity — unlike the identity of the code as it is -/
+/-- non-vacuity: on the chain the cache-free symbols of `a` differ before and after the edit of `c`, hence so does `a`'s
+    closure-keyed identity -/
 example : symPure cxSem srcInt 3 ['a'] ≠ symPure cxSem srcStr 3 ['a'] ∧ mid cxSem srcInt 3 ['a'] ≠ mid cxSem srcStr 3 ['a'] := by
   have h : symPure cxSem srcInt 3 ['a'] ≠ symPure cxSem srcStr 3 ['a'] := by decide +kernel
   exact ⟨h, fun e => h (symbols_partial_closure cxSem cxSem_hyp srcInt srcStr 3 ['a'] e)⟩
 
-/-! ### C05.disabled — caching disabled -/
+/-! ### C05.disabled — caching disabled (store gated on `enabled`, a3f0216) -/
 
-/-- With `CacheSetting.enabled = False` a run opens, creates and unlinks nothing below the cache directory. -/
-def disabled_statement : Prop :=
-  ∀ (S : Sem) (w : World) (force : Bool), w.storeGated = false → w.enabled = false →
-    (run S w force).log = [] ∧ (run S w force).w.cache = w.cache
+/-- With `CacheSetting.enabled = False` a run opens, creates and unlinks nothing below the cache directory, whatever earlier
+    runs left there — for every semantics and every world. -/
+theorem disabled (S : Sem) (w : World) (force : Bool) (he : w.enabled = false) :
+    (run S w force).log = [] ∧ (run S w force).w.cache = w.cache :=
+  ⟨(run_quiet w force he).1, (run_quiet w force he).2.1⟩
 
-/-- FALSE on the code as it is (F4): `SymbolDBPersistor._can_store` does not look at `enabled`; here the stale symbol file
-    of the edited module is unlinked and a new one is written although caching is disabled. -/
-theorem disabled_counterexample : ¬ disabled_statement := by
-  intro h
-  have := (h cxSem (exec cxSem cxWorld (cxHist ++ [.enable false])) true (by decide +kernel) (by decide +kernel)).1
-  revert this
+/-- non-vacuity and regression (the world that refuted the law before a3f0216: populated cache, an edit, caching switched
+    off): the run transpiles all three modules and touches nothing -/
+example :
+    let w : World := exec cxSem cxWorld (cxHist ++ [.enable false])
+    (w.enabled = false ∧ w.cache.length = 7 ∧ (run cxSem w true).out.length = 3 ∧ (run cxSem w true).err = none ∧
+      (run cxSem w true).log = []) := by
   decide +kernel
 
-/-- With the store gate of the proposed repair (`_can_store` also requires `setting.enabled`) the statement holds for every
-    world, whatever earlier runs left in the cache directory. -/
-theorem disabled_partial (S : Sem) (w : World) (force : Bool) (hg : w.storeGated = true) (he : w.enabled = false) :
-    (run S w force).log = [] ∧ (run S w force).w.cache = w.cache :=
-  ⟨(run_quiet w force he hg).1, (run_quiet w force he hg).2.1⟩
-
-/-- non-vacuity: the world of the counter-example with the gate closed; the run still transpiles all three modules -/
-example :
-    let w : World := { exec cxSem cxWorld (cxHist ++ [.enable false]) with storeGated := true }
-    (w.storeGated = true ∧ w.enabled = false ∧ w.cache.length = 7 ∧ (run cxSem w true).out.length = 3 ∧ (run cxSem w true).err = none) := by
+/-- …and with no cache directory at all the disabled run succeeds as well (it died with FileNotFoundError before) -/
+example : (run cxSem { exec cxSem cxWorld (cxHist ++ [.enable false]) with cache := [], dirs := [] } true).err = none := by
   decide +kernel
 
 end Tranp.C05
